@@ -220,6 +220,41 @@ def check_from_partial(ctx, case):
     ctx.count(('fp', d, k, with_id, traceless, case['seed'], case.get('scale', 1.0)), nontrivial=True)
 
 
+def check_imaginary_overlaps(ctx, case):
+    """orthonormality is about the complex overlaps tr(C_i^dagger C_j): sets whose non-zero overlaps
+    are purely imaginary ([A, iA], [X, (iX+Z)/sqrt 2]) are not orthonormal, and from_partial must
+    reject them"""
+    rng = np.random.default_rng(case['seed'])
+    d = int(case['d'])
+    A = gens.rand_herm(rng, d, True)
+    A = A/np.sqrt(np.trace(A @ A).real)
+    Bm = gens.rand_herm(rng, d, True)
+    Bm = Bm - np.trace(A @ Bm).real*A
+    Bm = Bm/np.sqrt(np.trace(Bm @ Bm).real)
+    sets = {'[A, iA]': [A, 1j*A], '[A, (iA+B)/sqrt2]': [A, (1j*A + Bm)/np.sqrt(2)],
+            '[A, iB] (orthonormal)': [A, 1j*Bm]}
+    probs = []
+    for name, els in sets.items():
+        b = ff.Basis(np.array(els))
+        G = np.einsum('iab,jab->ij', np.conj(np.array(els)), np.array(els))
+        truth = bool(np.allclose(G, np.eye(len(els)), atol=1e-10))
+        if bool(b.isorthonorm) != truth:
+            probs.append(f'isorthonorm={bool(b.isorthonorm)} for {name}, Gram matrix says {truth}')
+        if not truth:
+            try:
+                import warnings as _w
+                with _w.catch_warnings():
+                    _w.simplefilter('ignore')
+                    ff.Basis.from_partial(els)
+                probs.append(f'from_partial accepted the non-orthonormal set {name}')
+            except ValueError:
+                pass
+    ctx.count(('imag_overlap', d, case['seed']))
+    if probs:
+        ctx.fail('flags_truthful', case, probs, 'flags that agree with the Gram matrix',
+                 {'kind': 'imaginary_overlaps'}, f'd={d}: {probs[:2]}')
+
+
 def check_rejects(ctx, case):
     rng = np.random.default_rng(case['seed'])
     d = int(case['d'])
@@ -310,6 +345,8 @@ CHECKS = {'constructed_basis': check_constructed, 'from_partial_props': check_fr
 
 
 def replay(ctx, check, case):
+    if check == 'flags_truthful' and 'what' not in case:
+        return check_imaginary_overlaps(ctx, case)
     CHECKS[check](ctx, case)
 
 
@@ -337,6 +374,7 @@ def search(ctx, deep=False):
                                  'scale': [1.0, 0.04, 12.5, 1e3, 1e-6][int(rng.integers(0, 5))]})
         if i % 4 == 0:
             check_rejects(ctx, {'seed': int(rng.integers(0, 2**31)), 'd': d})
+            check_imaginary_overlaps(ctx, {'seed': int(rng.integers(0, 2**31)), 'd': d})
         check_flags(ctx, {'seed': int(rng.integers(0, 2**31)), 'd': d,
                           'what': str(rng.choice(['herm', 'orth', 'tl', 'complete',
                                                   'single_unnormalised'])),
